@@ -13,7 +13,7 @@ RULE = ("every reference-unit type of the executor universe (catalogue, AmountT,
 
 
 def plan(env, tier, seed):
-    n = 8 if tier == "quick" else 160
+    n = 16 if tier == "quick" else 400
     tasks = cl.split_tasks(env, lambda ty, e: e["kind"] == "ref")
     for t in tasks:
         t.update({"n": n, "seed": seed})
